@@ -81,3 +81,17 @@ Theorem T02_6_delete_unreachable_code_preserves :
   forall p, equiv p (delete_unreachable_code_model p).
 Proof. exact delete_unreachable_code_preserves. Qed.
 Print Assumptions T02_6_delete_unreachable_code_preserves.
+
+(* T02.7  fixes.early_return: the rewritten function body is indistinguishable for every caller (same
+   outcome and returned value, same trace, same oracle position); only the dead local environment
+   differs (the assignment to the returned variable is gone). *)
+Theorem T02_7_early_return_preserves :
+  forall p, obs_equiv p (early_return_model p).
+Proof. exact early_return_preserves. Qed.
+Print Assumptions T02_7_early_return_preserves.
+
+(* T02.8  fixes.early_continue (both forms, after repair bf06b6c) *)
+Theorem T02_8_early_continue_preserves :
+  forall p, equiv p (early_continue_model p).
+Proof. exact early_continue_preserves. Qed.
+Print Assumptions T02_8_early_continue_preserves.
